@@ -52,6 +52,9 @@ Types == <<
   [name |-> "@AA",  n |-> Obj(<<P(Kd, Lit(NumD(N1), <<>>))>>, <<R("allOf", TRef("@A1"))>>)],
   [name |-> "@AAA", n |-> Obj(<<>>, <<R("allOf", TRef("@AA"))>>)],
   [name |-> "@W",   n |-> Ref(<<"@U", "@O">>, <<>>)],
+  \* allOf parents that hand down an additionalProperties rule: an empty object, and one with a property
+  [name |-> "@OE",  n |-> Obj(<<>>, <<R("additionalProperties", IdV("string"))>>)],
+  [name |-> "@OP",  n |-> Obj(<<P(Ka, Lit(NumD(N1), <<>>))>>, <<R("additionalProperties", IdV("string"))>>)],
   \* key types that are shortcuts to string types, and a key type given by a format
   [name |-> "@KA",  n |-> Ref(<<"@K">>, <<>>)],
   [name |-> "@KU",  n |-> Ref(<<"@K", "@K2">>, <<>>)],
@@ -94,6 +97,10 @@ ShortcutRoots == { Obj(<<SC("@K", Lit(NumD(N1), <<>>))>>, <<>>),
 AllOfRoots == { Obj(<<P(Kx, Lit(NumD(N1), <<OptR>>))>>, <<R("allOf", TRef("@C"))>>),
                 Obj(<<>>, <<R("allOf", ListV(<<TRef("@A2"), TRef("@AA")>>))>>),
                 Obj(<<P(Kp, Ref(<<"@AAA">>, <<>>))>>, <<R("allOf", TRef("@A2")), R("additionalProperties", IdV("integer"))>>),
+                \* an inherited additionalProperties rule (from an empty parent, from a parent with a property, through a chain)
+                Obj(<<P(Kd, Lit(NumD(N2), <<>>))>>, <<R("allOf", TRef("@OE"))>>), Obj(<<P(Kd, Lit(NumD(N2), <<>>))>>, <<R("allOf", TRef("@OP"))>>),
+                \* an or rule set that names a type and is nullable, next to a plain kind
+                Lit(StrD(Sabc), <<R("or", ListV(<<SetV(<<R("type", TRef("@K")), NullR>>), IdV("integer")>>))>>),
                 \* inheritance on two levels of one example: an object with allOf one of whose own properties is an object with its own allOf
                 Obj(<<P(Kp, Obj(<<P(Kx, Lit(NumD(N1), <<>>))>>, <<R("allOf", TRef("@A2"))>>))>>, <<R("allOf", TRef("@A1"))>>),
                 Obj(<<P(Kp, Arr(<<Obj(<<>>, <<R("allOf", TRef("@A2"))>>)>>, <<>>))>>, <<R("allOf", TRef("@A1"))>>) }
@@ -117,6 +124,8 @@ Special == { RecDoc2, ObjD(<<KVp(Kx, NumD(N1)), KVp(Kr, RecDoc2)>>), ObjD(<<KVp(
              ObjD(<<KVp(Ka, NumD(N1)), KVp(Kd, NumD(N1)), KVp(Kb, NumD(N2))>>), ObjD(<<KVp(Kp, ObjD(<<KVp(Ka, NumD(N1)), KVp(Kd, NumD(N1))>>)), KVp(Kx, NumD(N7))>>),
              ObjD(<<KVp(Ka, NumD(N1)), KVp(Kp, ObjD(<<KVp(Kx, NumD(N1)), KVp(Kb, NumD(N2))>>))>>), ObjD(<<KVp(Ka, NumD(N1)), KVp(Kp, ObjD(<<KVp(Kx, NumD(N1))>>))>>),
              ObjD(<<KVp(Ka, NumD(N1)), KVp(Kp, ArrD(<<ObjD(<<KVp(Kb, NumD(N2))>>)>>))>>), ObjD(<<KVp(Ka, NumD(N1)), KVp(Kp, ArrD(<<ObjD(<<>>)>>))>>),
+             ObjD(<<KVp(Kd, NumD(N2)), KVp(Kzz, StrD(Ss))>>), ObjD(<<KVp(Kd, NumD(N2)), KVp(Kzz, NumD(N1))>>),
+             ObjD(<<KVp(Ka, NumD(N1)), KVp(Kd, NumD(N2)), KVp(Kzz, StrD(Ss))>>), ObjD(<<KVp(Ka, NumD(N1)), KVp(Kd, NumD(N2)), KVp(Kzz, NumD(N1))>>),
              ArrD(<<ArrD(<<NumD(N1)>>)>>), ObjD(<<KVp(Kp, ArrD(<<NumD(N1), StrD(Sa)>>))>>), ObjD(<<KVp(Kp, StrD(Sa_b))>>),
              ObjD(<<KVp(Ka, NumD(N1)), KVp(Kzz, StrD(Sa_b))>>), ObjD(<<KVp(Ka, NumD(N1)), KVp(Kzz, NumD(N1_5))>>), ObjD(<<KVp(Ka, NumD(N1)), KVp(Kzz, BoolD(TRUE))>>),
              ObjD(<<KVp(Kabc, NumD(N1)), KVp(Kabd, NumD(N1)), KVp(Kab, StrD(Ss))>>), ObjD(<<KVp(Kabc, NumD(N1)), KVp(Kzz, StrD(Ss))>>),
